@@ -145,3 +145,5 @@ func jsonUnmarshal(raw []byte, v any) error { return json.Unmarshal(raw, v) }
 
 // specDecode parses a portable 32-bit stream with the independent decoder.
 func specDecode(b []byte) ([]spec.Chunk, int, error) { return spec.DecodePortable(b, false) }
+
+func extractOf(b *roaring.Bitmap) *model.Set32 { return extract.Of(b) }
